@@ -49,6 +49,9 @@ fn observe<const N: usize>(b: &Bitset<N>, m: &BTreeSet<usize>, step: usize, what
     let want: Vec<usize> = m.iter().cloned().collect();
     vensure!(got == want, "iter_bits", "step {} N={} {}: iter_bits = {:?}, set = {:?}", step, N, what, got, want);
     vensure!(b.count() == m.len(), "count", "step {} N={} {}: count() = {}, set has {}", step, N, what, b.count(), m.len());
+    if want.len() <= 200 && (step % 4 == 0 || !touched.is_empty() && touched[0] % 3 == 0) {
+        vcore::adaptors_agree(&format!("step {} N={} iter_bits", step, N), &want, step + touched.first().cloned().unwrap_or(0), || b.iter_bits())?;
+    }
     let mut probe: Vec<usize> = vec![0, 63.min(bits - 1), bits - 1];
     for k in 1..N {
         probe.push(64 * k - 1);
